@@ -233,7 +233,8 @@ Definition letters (t : table) : list letter :=
 
 Definition alphabet : list letter :=
   [K "CREATE"; K "TABLE"; G; LDot; LStr; LPl; RPl; CMl; K "NOT"; K "NULL"; K "DEFAULT"; K "PRIMARY"; K "KEY"; K "UNIQUE";
-   K "REFERENCES"; K "ON"; K "DELETE"; K "UPDATE"; K "CONSTRAINT"; K "FOREIGN"] ++ name_letters ++ colname_letters.
+   K "REFERENCES"; K "ON"; K "DELETE"; K "UPDATE"; K "CONSTRAINT"; K "FOREIGN";
+   K "TABLESPACE"; K "STORED"; K "AS"; K "LOCATION"; K "ENGINE"; K "COMMENT"; K "USING"; K "IN"; LEq] ++ name_letters ++ colname_letters.
 
 (* ---------- the reference machine F ---------------------------------------------------------------------------------- *)
 Inductive ctx := First | Later.
@@ -274,6 +275,23 @@ Definition pend_reds (p : pend) : list string :=
 Definition close_red (c : ctx) : string :=
   match c with First => "expr -> table_name LP defcolumn" | Later => "expr -> expr COMMA defcolumn" end.
 
+(* clauses after the column list: what is still to be reduced when the next clause (or the end) arrives *)
+Inductive cpend := CPTs | CPStored | CPLoc | CPEng | CPCom | CPUs | CPIn.
+Definition cpend_eqb (a b : cpend) : bool :=
+  match a, b with CPTs, CPTs | CPStored, CPStored | CPLoc, CPLoc | CPEng, CPEng | CPCom, CPCom | CPUs, CPUs | CPIn, CPIn => true | _, _ => false end.
+Lemma cpend_eqb_eq a b : cpend_eqb a b = true -> a = b.
+Proof. destruct a, b; simpl; congruence. Qed.
+Definition cpending (p : cpend) : list string :=
+  match p with
+  | CPTs => ["id -> ID"; "tablespace -> TABLESPACE id"; "expr -> expr tablespace"]
+  | CPStored => ["id -> ID"; "expr -> expr STORED AS id"]
+  | CPLoc => ["STRING -> STRING_BASE"; "expr -> expr LOCATION STRING"]
+  | CPEng => ["id -> ID"; "expr -> expr ENGINE EQ id"]
+  | CPCom => ["STRING -> STRING_BASE"; "option_comment -> COMMENT EQ STRING"; "expr -> expr option_comment"]
+  | CPUs => ["id -> ID"; "using -> USING id"; "expr -> expr using"]
+  | CPIn => ["id -> ID"; "expr -> expr IN id"]
+  end.
+
 (* which table-level column list is being read: PRIMARY KEY / UNIQUE / FOREIGN KEY / the referenced columns (named by CONSTRAINT?) *)
 Inductive tk := TkPk (named : bool) | TkUq (named : bool) | TkFk (named : bool) | TkRef (named : bool).
 
@@ -282,6 +300,7 @@ Inductive q :=
 | TP0 (k : tk) | TP1 (k : tk) | TPn (k : tk) | TPm (k : tk) | TPEnd (k : tk)
 | TFR0 (n : bool) | TFR1 (n : bool) | TFRD (n : bool) | TFR2 (n : bool)
 | TRON (n : bool) (upd_only : bool) | TROD (n : bool) | TROU (n : bool) | TRDel (n : bool) | TRUpd (n : bool)
+| XTS | XST | XSA | XLOC | XEN | XEE | XCM | XCE | XUS | XIN | CB (p : cpend)
 | T0 | T1 | T2 | N1 | ND | N2 | END
 | C0 (c : ctx) | C1 (c : ctx)
 | SZ0 (c : ctx) (two : bool) | SZ1 (c : ctx) | SZ2 (c : ctx) | SZ3 (c : ctx)
@@ -301,6 +320,8 @@ Definition tk_eqb (a b : tk) : bool :=
   match a, b with TkPk x, TkPk y | TkUq x, TkUq y | TkFk x, TkFk y | TkRef x, TkRef y => Bool.eqb x y | _, _ => false end.
 Definition q_eqb (a b : q) : bool :=
   match a, b with
+  | XTS, XTS | XST, XST | XSA, XSA | XLOC, XLOC | XEN, XEN | XEE, XEE | XCM, XCM | XCE, XCE | XUS, XUS | XIN, XIN => true
+  | CB x, CB y => cpend_eqb x y
   | TCN0, TCN0 | TCN1, TCN1 => true
   | TPK0 x, TPK0 y | TPK1 x, TPK1 y | TUQ0 x, TUQ0 y | TFK0 x, TFK0 y | TFK1 x, TFK1 y | TFR0 x, TFR0 y | TFR1 x, TFR1 y
   | TFRD x, TFRD y | TFR2 x, TFR2 y | TROD x, TROD y | TROU x, TROU y | TRDel x, TRDel y | TRUpd x, TRUpd y => Bool.eqb x y
@@ -323,6 +344,7 @@ Lemma q_eqb_eq a b : q_eqb a b = true -> a = b.
 Proof.
   destruct a, b; simpl; try congruence; intro H;
     first [ apply ctx_eqb_eq in H; congruence
+          | apply cpend_eqb_eq in H; congruence
           | apply tk_eqb_eq in H; congruence
           | apply Bool.eqb_prop in H; congruence
           | apply andb_true_iff in H; destruct H as [H1 H2];
@@ -362,6 +384,17 @@ Definition item_end (ps : list string) (l : letter) : option (fout * q) :=
   else if isl l RPl then Some ((ps, "RP", Upper), END)
   else None.
 
+(* a clause keyword arriving when ps is still to be reduced *)
+Definition clause_start (ps : list string) (l : letter) : option (fout * q) :=
+  if is l "TABLESPACE" then Some ((ps, "TABLESPACE", Upper), XTS)
+  else if is l "STORED" then Some ((ps, "STORED", Upper), XST)
+  else if is l "LOCATION" then Some ((ps, "LOCATION", Upper), XLOC)
+  else if is l "ENGINE" then Some ((ps, "ENGINE", Upper), XEN)
+  else if is l "COMMENT" then Some ((ps, "COMMENT", Upper), XCM)
+  else if is l "USING" then Some ((ps, "USING", Upper), XUS)
+  else if is l "IN" then Some ((ps, "IN", Upper), XIN)
+  else None.
+
 Definition fstep (s : q) (l : letter) : option (fout * q) :=
   match s with
   | T0 => if is l "CREATE" then Some (([], "CREATE", Upper), T1) else None
@@ -373,7 +406,19 @@ Definition fstep (s : q) (l : letter) : option (fout * q) :=
   | ND => if is_name_letter l then Some (([], "ID", Keep), N2) else None
   | N2 => if isl l LPl then Some ((["id -> ID"; "t_name -> id DOT id"; "table_name -> create_table t_name"], "LP", Keep), C0 First)
           else None
-  | END => None
+  | END => clause_start ["expr -> expr RP"] l
+  | CB p => if cpend_eqb p CPTs && is l "IN" then None      (* TABLESPACE x IN ... is read as tablespace properties *)
+            else clause_start (cpending p) l
+  | XTS => if isG l then Some (([], "ID", Keep), CB CPTs) else None
+  | XST => if is l "AS" then Some (([], "AS", Upper), XSA) else None
+  | XSA => if isG l then Some (([], "ID", Keep), CB CPStored) else None
+  | XLOC => if isl l LStr then Some (([], "STRING_BASE", Keep), CB CPLoc) else None
+  | XEN => if isl l LEq then Some (([], "EQ", Keep), XEE) else None
+  | XEE => if isG l then Some (([], "ID", Keep), CB CPEng) else None
+  | XCM => if isl l LEq then Some (([], "EQ", Keep), XCE) else None
+  | XCE => if isl l LStr then Some (([], "STRING_BASE", Keep), CB CPCom) else None
+  | XUS => if isG l then Some (([], "ID", Keep), CB CPUs) else None
+  | XIN => if isG l then Some (([], "ID", Keep), CB CPIn) else None
   | C0 c => if is_col_letter l then Some (([], "ID", Keep), C1 c)
             else if ctx_eqb c Later && is l "PRIMARY" then Some (([], "PRIMARY", Upper), TPK0 false)
             else if ctx_eqb c Later && is l "UNIQUE" then Some (([], "UNIQUE", Upper), TUQ0 false)
@@ -442,7 +487,7 @@ Definition fstep (s : q) (l : letter) : option (fout * q) :=
   end.
 
 Definition ffinish (s : q) : option (list string) :=
-  match s with END => Some ["expr -> expr RP"] | _ => None end.
+  match s with END => Some ["expr -> expr RP"] | CB p => Some (cpending p) | _ => None end.
 
 (* ---------- protocol: an AST given as flat arguments (used by the harness to obtain wf / lexemes / denote) ------------ *)
 Definition nullk_of (tag a b : string) : option (option nullk) :=
@@ -664,5 +709,109 @@ Definition tablec_of_args (l : list string) : option tablec :=
   let '(targs, iargs) := split_at_items l in
   match table_of_args targs, titems_of_args (Datatypes.S (List.length iargs)) iargs with
   | Some t, Some is_ => Some (mkTableC t is_)
+  | _, _ => None
+  end.
+
+(* ====================================================================================================================
+   Clauses after the column list (property C11), any number, subset and order:
+     TABLESPACE n | STORED AS f | LOCATION 'path' | ENGINE = e | COMMENT = 'text' | USING f | IN n *)
+Inductive tclause :=
+| CTablespace (kw n : string) | CStored (kw1 kw2 v : string) | CLocation (kw s : string) | CEngine (kw v : string)
+| CComment (kw s : string) | CUsing (kw v : string) | CIn (kw v : string).
+Record tablex := mkTableX { tx_tc : tablec; tx_clauses : list tclause }.
+
+Definition EQL : lexeme := ("t_EQ", "=").
+Definition wf_clause (c : tclause) : bool :=
+  match c with
+  | CTablespace k n => is_kw k "TABLESPACE" && is_plain n
+  | CStored a b v => is_kw a "STORED" && is_kw b "AS" && is_plain v
+  | CLocation k _ => is_kw k "LOCATION"
+  | CEngine k v => is_kw k "ENGINE" && is_plain v
+  | CComment k _ => is_kw k "COMMENT"
+  | CUsing k v => is_kw k "USING" && is_plain v
+  | CIn k v => is_kw k "IN" && is_plain v
+  end.
+(* TABLESPACE x directly followed by IN ... is read by the grammar as one tablespace clause with properties *)
+Fixpoint no_ts_then_in (l : list tclause) : bool :=
+  match l with
+  | CTablespace _ _ :: ((CIn _ _ :: _) as r) => false
+  | _ :: r => no_ts_then_in r
+  | [] => true
+  end.
+Definition clause_lexemes (c : tclause) : list lexeme :=
+  match c with
+  | CTablespace k n => [W k; W n]
+  | CStored a b v => [W a; W b; W v]
+  | CLocation k s => [W k; SB s]
+  | CEngine k v => [W k; EQL; W v]
+  | CComment k s => [W k; EQL; SB s]
+  | CUsing k v => [W k; W v]
+  | CIn k v => [W k; W v]
+  end.
+Definition clause_letters (c : tclause) : list letter :=
+  match c with
+  | CTablespace _ _ => [K "TABLESPACE"; G]
+  | CStored _ _ _ => [K "STORED"; K "AS"; G]
+  | CLocation _ _ => [K "LOCATION"; LStr]
+  | CEngine _ _ => [K "ENGINE"; LEq; G]
+  | CComment _ _ => [K "COMMENT"; LEq; LStr]
+  | CUsing _ _ => [K "USING"; G]
+  | CIn _ _ => [K "IN"; G]
+  end.
+(* each clause sets exactly one key of the table entity, to exactly the declared value, and touches nothing else *)
+Definition clause_key (c : tclause) : string :=
+  match c with
+  | CTablespace _ _ | CIn _ _ => "tablespace" | CStored _ _ _ => "stored_as" | CLocation _ _ => "location"
+  | CEngine _ _ => "engine" | CComment _ _ => "comment" | CUsing _ _ => "using"
+  end.
+Definition clause_value (norm : bool) (c : tclause) : pyval :=
+  match c with
+  | CTablespace _ n => PDict [("tablespace_name", nmv norm n); ("properties", PNone); ("type", PNone); ("temporary", PBool false)]
+  | CStored _ _ v | CEngine _ v | CUsing _ v | CIn _ v => nmv norm v
+  | CLocation _ s | CComment _ s => PStr s
+  end.
+Definition clause_apply (norm : bool) (d : list (string * pyval)) (c : tclause) : list (string * pyval) :=
+  dict_set d (clause_key c) (clause_value norm c).
+
+Definition lexemes_x (tx : tablex) : list lexeme := lexemes_c (tx_tc tx) ++ flat_map clause_lexemes (tx_clauses tx).
+Definition letters_x (tx : tablex) : list letter := letters_c (tx_tc tx) ++ flat_map clause_letters (tx_clauses tx).
+Definition denote_x (norm : bool) (tx : tablex) : res (list (string * pyval)) :=
+  do d <- denote_c norm (tx_tc tx); Ok (fold_left (clause_apply norm) (tx_clauses tx) d).
+Definition wf_x (norm : bool) (tx : tablex) : bool :=
+  wf_c norm (tx_tc tx) && forallb wf_clause (tx_clauses tx) && no_ts_then_in (tx_clauses tx).
+
+(* ---------- protocol for the clauses after the column list: after the table (and ITEMS) arguments the word CLAUSES, then per clause
+     TS k n "" | ST k1 k2 v | LO k s "" | EN k v "" | CO k s "" | US k v "" | IN k v "" *)
+Fixpoint clauses_of_args (fuel : nat) (l : list string) : option (list tclause) :=
+  match fuel with
+  | O => None
+  | Datatypes.S f =>
+    match l with
+    | [] => Some []
+    | tag :: a :: b :: c :: r =>
+      match clauses_of_args f r with
+      | None => None
+      | Some cs =>
+        if String.eqb tag "TS" then Some (CTablespace a b :: cs)
+        else if String.eqb tag "ST" then Some (CStored a b c :: cs)
+        else if String.eqb tag "LO" then Some (CLocation a b :: cs)
+        else if String.eqb tag "EN" then Some (CEngine a b :: cs)
+        else if String.eqb tag "CO" then Some (CComment a b :: cs)
+        else if String.eqb tag "US" then Some (CUsing a b :: cs)
+        else if String.eqb tag "IN" then Some (CIn a b :: cs)
+        else None
+      end
+    | _ => None
+    end
+  end.
+Fixpoint split_at_word (w : string) (l : list string) : list string * list string :=
+  match l with
+  | [] => ([], [])
+  | x :: r => if String.eqb x w then ([], r) else let '(a, b) := split_at_word w r in (x :: a, b)
+  end.
+Definition tablex_of_args (l : list string) : option tablex :=
+  let '(targs, cargs) := split_at_word "CLAUSES" l in
+  match tablec_of_args targs, clauses_of_args (Datatypes.S (List.length cargs)) cargs with
+  | Some tc, Some cs => Some (mkTableX tc cs)
   | _, _ => None
   end.
